@@ -1594,6 +1594,13 @@ class Sym:
                     cf = self.F.trait_impl_fn(ci, "from" if ci.startswith("<") and " as core::convert::From<" in ci else "try_from")
                 except ValueError:
                     cf = None
+                if cf is None and trait_callee in ("core::convert::Into::into", "core::convert::From::from") and args and args[0][0] == "ctor" and "::" in args[0][1]:
+                    # inside an expanded generic helper (`v.into()` with `T: Into<&str>`): the impl is fixed by the value converted --
+                    # the one `From<ThatEnum>` impl of the crate
+                    en = args[0][1].rsplit("::", 1)[0]
+                    cands = [f for f in self.F.fns if f["name"] == "from" and ((f.get("impl") or {}).get("trait_ref") or "").endswith(" as core::convert::From<%s>>" % en)]
+                    if len(cands) == 1:
+                        cf = cands[0]
                 if cf is not None and cf.get("body") is not None:
                     callee = cf["path"]       # canonical callee: the /repo impl, however the conversion was spelled
                     if self.inline(cf["path"], n):
